@@ -1009,6 +1009,10 @@ class Folder:
         if isinstance(expr, ast.Call):
             fn = expr.func
             if isinstance(fn, ast.Name) and fn.id in ("set", "frozenset", "tuple", "list") and len(expr.args) == 1 and not expr.keywords:
+                dk = p.resolve_expr(m, expr.args[0]) if isinstance(expr.args[0], (ast.Name, ast.Attribute)) and not (local and isinstance(expr.args[0], ast.Name) and expr.args[0].id in local) else None
+                if dk is not None and dk.kind == "class" and self.is_enum(dk.obj):
+                    # iterating an enum class yields its canonical members (aliases are skipped), as numbers here
+                    return {"set": frozenset, "frozenset": frozenset, "tuple": tuple, "list": list}[fn.id](list(self.enum_canonical(dk.obj)))
                 v = self.fold(m, expr.args[0], local)
                 seq = [self._plain(x) for x in v]
                 return {"set": frozenset, "frozenset": frozenset, "tuple": tuple, "list": list}[fn.id](seq)
